@@ -147,12 +147,37 @@ def run_chunk(exe, variant, profile, seed, start, count, prop, agg_lock_free):
             res["faults"].append("worker for %s/%s start=%d died (rc=%s) outside a run: %s" % (variant, profile, nxt, rc, err[-500:]))
             break
         if not crash_seen:
-            # died without a CRASH line (e.g. SIGKILL, sanitizer report before the death callback): synthesise one
+            # died without a CRASH line (UBSan report, stack overflow, SIGKILL): find the running step by executing the
+            # same run alone with tracing -- the run is a pure function of its seed
             kind = "sanitizer" if rc == 77 else "signal"
-            res["crashes"].append({"kind": kind, "sig": str(-rc if rc < 0 else rc), "seed": last_start["seed"], "step": "?", "op": "?", "owner": "C19", "variant": variant,
+            op, owner = trace_death(exe, seed, profile, last_start["idx"])
+            res["crashes"].append({"kind": kind, "sig": str(-rc if rc < 0 else rc), "seed": last_start["seed"], "step": "?", "op": op, "owner": owner, "variant": variant,
                                    "profile": profile, "batchseed": seed, "idx": last_start["idx"], "stderr_tail": err[-1500:]})
         nxt = int(last_start["idx"]) + 1
     return res
+
+
+def trace_death(exe, seed, profile, idx):
+    env = dict(os.environ, ASAN_OPTIONS="exitcode=77:detect_leaks=0:allocator_may_return_null=1")
+    path = os.path.join(OUT, "replays", ".trace-%s-%s-%s-%d.plan" % (profile, seed, idx, os.getpid()))
+    os.makedirs(os.path.dirname(path), exist_ok=True)
+    op, owner = "?", "C19"
+    try:
+        sim_emit_plan(exe, seed, profile, idx, path)
+        p = subprocess.run([exe, "--data", DATA, "--replay", path, "--trace"], stdout=subprocess.PIPE, stderr=subprocess.DEVNULL, text=True, errors="replace", env=env, timeout=300)
+        for line in p.stdout.split("\n"):
+            m = re.match(r"^step \d+ client=\S+ (\w+)", line)
+            if m:
+                op = m.group(1)
+            m = re.match(r"^\s*\| OWNER (\S+)", line)
+            if m:
+                owner = m.group(1)
+    except Exception:
+        pass
+    finally:
+        if os.path.exists(path):
+            os.remove(path)
+    return op, owner
 
 
 def sim_emit_plan(exe, seed, profile, idx, path):
@@ -287,7 +312,7 @@ def main():
     crashes = [c for c in agg.crashes if c.get("kind") != "timeout"]
     # a crash is a verdict for the property that owns the step's post-condition, and for C19 when it is a memory error
     def crash_props(c):
-        ps = {c.get("owner", "C19")}
+        ps = set(c.get("owner", "C19").split("+"))
         if c.get("kind") in ("signal", "sanitizer"):
             ps.add("C19")
         return ps
@@ -304,7 +329,7 @@ def main():
         classes.setdefault((v["oracle"], v["sig"]), []).append(v)
     crash_classes = collections.OrderedDict()
     for c in sorted(my_crashes, key=lambda c: (c.get("kind", ""), c.get("op", ""), c["variant"], str(c.get("idx")))):
-        crash_classes.setdefault((c.get("kind", ""), c.get("owner", ""), c.get("op", "")), []).append(c)
+        crash_classes.setdefault((c.get("kind", ""), prop if prop in c.get("owner", "").split("+") else "", c.get("op", "")), []).append(c)
 
     os.makedirs(os.path.join(OUT, "replays"), exist_ok=True)
     reported, known_hits, harness_fault = [], [], False
@@ -362,7 +387,7 @@ def main():
             harness_fault = True
             continue
         sim_emit_plan(exe, c["batchseed"], c["profile"], c["idx"], planf)
-        r = subprocess.run([exe, "--data", DATA, "--minimise", planf, "--crash", "--prop", owner, "--oracle", kind, "--variant", c["variant"], "-o", minf],
+        r = subprocess.run([exe, "--data", DATA, "--minimise", planf, "--crash"] + (["--prop", owner] if owner else []) + ["--oracle", kind, "--variant", c["variant"], "-o", minf],
                            stdout=subprocess.PIPE, stderr=subprocess.PIPE, text=True)
         if r.returncode != 0 or not os.path.exists(minf):
             log("run_check: HARNESS FAULT: crash (%s, op %s, seed %s, %s) did not reproduce in a fresh process" % (kind, op, c["seed"], c["variant"]))
@@ -371,7 +396,8 @@ def main():
         ok = True
         for _ in range(2):
             run, viols, crash, rc, err = sim_replay(exe, minf)
-            if crash is None or crash.get("kind") != kind:
+            died = (crash is not None and crash.get("kind") == kind) or (crash is None and run is None and ((kind == "sanitizer" and rc == 77) or (kind == "signal" and rc < 0)))
+            if not died:
                 ok = False
         if not ok:
             log("run_check: HARNESS FAULT: minimised crash replay %s does not reproduce" % minf)
